@@ -88,7 +88,7 @@ func shortcutUnits() []unit {
 	}
 	s := R.Sec("shortcut")
 	s.Bounds["peers"] = fmt.Sprintf("1..%d, full alphabet", maxN)
-	s.Bounds["what"] = "Cluster.Pin with options identical to the stored pin (holders: every subset with min<=|cur|<=max): only the clauses 'no duplicates', 'added peers are healthy', 'healthy holders kept', 'at most max healthy' are judged; whether the list is kept verbatim and whether fewer than min healthy holders remain is recorded as an outcome class, not judged"
+	s.Bounds["what"] = "Cluster.Pin with options identical to the stored pin (holders: every subset with min<=|cur|<=max): only the clauses 'no duplicates', 'added peers are healthy', 'healthy holders kept', 'at most max healthy' are judged; whether the list is kept verbatim and whether fewer than min healthy holders remain is recorded as an outcome class, not judged; plus entry raise-min: the same request over a stored pin that differs only by a lower minimum, judged as a full request"
 	var units []unit
 	for n := 1; n <= maxN; n++ {
 		n := n
@@ -113,6 +113,20 @@ func shortcutUnits() []unit {
 											DefMin: -1, DefMax: -1, Alloc: alloc, Entry: "shortcut", Excluded: -1}
 										o := r.evaluate("shortcut", c)
 										maybeSample("shortcut", 5003, r, c, o, defaultNonNum)
+										if pr.mn >= 2 {
+											// the same request over a stored pin whose only
+											// difference is a lower minimum (holders: every
+											// subset with min-1 <= |cur| <= max): a full
+											// request, judged as one
+											for _, cur2 := range consistentCurs(n, pair{pr.mn - 1, pr.mx}) {
+												if fmt.Sprint(cur2) != fmt.Sprint(cur) && len(cur2) >= pr.mn {
+													continue // (each holder set once: the larger ones under cur == cur2)
+												}
+												c2 := c
+												c2.Cur, c2.Entry = cur2, "raise-min"
+												r.evaluate("shortcut", c2)
+											}
+										}
 									}
 								}
 							}
